@@ -17,7 +17,7 @@ from typing import Any, Callable
 
 import z3
 
-from .spec import SYM, f_cnt, f_dot
+from .spec import SYM, _has_ite, f_cnt, f_dot
 from .types import (TBool, TDict, TInt, TNone, TNoneT, TObj, TOpaque, TOpt, TReal, TRec, TSeq, TSet, TSlice, TStr,
                     TTuple, TUnion, Ty, Val, VNone, fresh_name, unwrap, wrap)
 
@@ -50,6 +50,7 @@ class Contract:
     defaults: dict[str, Any] = field(default_factory=dict)
     trusted: bool = False  # contract of code that is NOT verified by the proof rung (assumption; listed)
     note: str = ""
+    axioms: Callable | None = None  # (S, a) -> list of *definitional* axioms for spec arrays (see S.defarray)
     static: bool = False  # staticmethod: a call through an instance or the class does not pass the receiver
     cases: dict[str, Callable] = field(default_factory=dict)  # proof by cases: name -> (S,a)->Bool (must be exhaustive)
 
@@ -116,8 +117,14 @@ class Exit:
     line: int | None
 
 
+OVERRIDES: dict = {}  # qualname -> FunctionDef; only filled by tools/mutation_selftest.py (mutants of the real text)
+
+
 def extract_function(repo: str, qualname: str) -> tuple[ast.FunctionDef, dict]:
     """Locate the FunctionDef in the current working tree.  Returns node and provenance info."""
+    if qualname in OVERRIDES:
+        return OVERRIDES[qualname], {"file": "<mutant>", "qualname": qualname, "lines": [0, 0], "sha256": "mutant",
+                                     "decorators_dropped": []}
     path, name = qualname.split("::")
     src = open(f"{repo}/{path}").read()
     tree = ast.parse(src)
@@ -179,6 +186,8 @@ class Engine:
         if c.requires:
             for _, cl in c.requires(SYM, self.pre).items():
                 st.pc.append(cl)
+        if c.axioms:
+            st.pc += list(c.axioms(SYM, self.pre))
         if case is not None:
             st.pc.append(c.cases[case](SYM, self.pre))
         self.case = case
@@ -564,11 +573,15 @@ class Engine:
                 n = z3.If(hi > lo, hi - lo, 0)
                 return n, (lambda i: Val(TInt, lo + i))
             if f == "zip":
-                if any(isinstance(a, ast.Starred) for a in node.args):
-                    raise Unsupported("zip(*...)", node)
+                starred = [a for a in node.args if isinstance(a, ast.Starred)]
+                if starred:
+                    return self._zip_star(node, st)
                 subs = [self.eval_iter(a, st) for a in node.args]
-                n = subs[0][0]
-                for m, _ in subs[1:]:
+                finite = [m for m, _ in subs if m is not None]
+                if not finite:
+                    raise Unsupported("zip of infinite iterables only", node)
+                n = finite[0]
+                for m in finite[1:]:
                     n = z3.If(m < n, m, n)
                 return n, (lambda i: tuple(e(i) for _, e in subs))
             if f == "enumerate":
@@ -591,7 +604,8 @@ class Engine:
                 return order.ty.len(order.t), el
         v = self.eval(node, st)
         if isinstance(v.ty, TSeq):
-            return v.ty.len(v.t), (lambda i: Val(v.ty.elem, z3.Select(v.ty.arr(v.t), i)))
+            n_ = None if getattr(v, "inf", False) else v.ty.len(v.t)
+            return n_, (lambda i: Val(v.ty.elem, z3.Select(v.ty.arr(v.t), i)))
         if isinstance(v.ty, TTuple):
             items = v.t
 
@@ -605,6 +619,37 @@ class Engine:
             order = self.dict_order(v, st)
             return order.ty.len(order.t), (lambda i: Val(v.ty.key, z3.Select(order.ty.arr(order.t), i)))
         raise Unsupported(f"iteration over {v.ty}", node)
+
+    def _zip_star(self, node, st):
+        """zip(*M, x): M a sequence of equally long rows (obligation), x one more iterable.  Item i is (column i of M
+        as a list, x[i]); the matching target is (*names, last)."""
+        if len(node.args) != 2 or not isinstance(node.args[0], ast.Starred):
+            raise Unsupported("zip with a starred argument in this position", node)
+        M = self.eval(node.args[0].value, st)
+        if not (isinstance(M.ty, TSeq) and isinstance(M.ty.elem, TSeq)):
+            raise Unsupported("zip(*x) of a non-matrix", node)
+        row_ty = M.ty.elem
+        R = M.ty.len(M.t)
+        rows = M.ty.arr(M.t)
+        r = z3.Int(fresh_name("zr"))
+        L = row_ty.len(z3.Select(rows, 0))  # the natural witness: the length of the first row
+        same = z3.ForAll([r], z3.Implies(z3.And(0 <= r, r < R), row_ty.len(z3.Select(rows, r)) == L),
+                         patterns=[z3.Select(rows, r)])
+        self.oblige(st, "zip(*rows): all rows equally long", same, node.lineno, "assert")
+        st.assume(same)
+        m2, e2 = self.eval_iter(node.args[1], st)
+        n = z3.If(R > 0, L, m2 if m2 is not None else z3.IntVal(0))
+        if m2 is not None:
+            n = z3.If(R > 0, z3.If(m2 < L, m2, L), m2)
+        # column i as a sequence: colarr(i)[r] = rows[r][i]   (a function of i, not a fresh constant per use)
+        colarr = z3.Function(fresh_name("col"), z3.IntSort(), z3.ArraySort(z3.IntSort(), row_ty.elem.sort()))
+        ii = z3.Int(fresh_name("zi"))
+        cell = z3.Select(row_ty.arr(z3.Select(rows, r)), ii)
+        st.assume(z3.ForAll([ii, r], z3.Select(colarr(ii), r) == cell, patterns=[z3.Select(colarr(ii), r), cell]))
+
+        def elem(i):
+            return (Val(row_ty, row_ty.mk(R, colarr(i)), True), e2(i))
+        return n, elem
 
     def dict_order(self, d: Val, st: State) -> Val:
         """Iteration order of a dict: an unknown duplicate-free enumeration of its domain (ghost witness `pos`)."""
@@ -633,6 +678,12 @@ class Engine:
         if isinstance(tgt, (ast.Tuple, ast.List)):
             if isinstance(v, Val) and isinstance(v.ty, TTuple):
                 v = tuple(v.t)
+            if isinstance(v, tuple) and len(tgt.elts) == 2 and isinstance(tgt.elts[0], ast.Starred) and len(v) == 2 \
+                    and isinstance(v[0], Val) and isinstance(v[0].ty, TSeq):
+                # (*names, last) against an item of zip(*rows, x): the column is delivered as one list
+                self.bind(tgt.elts[0].value, v[0], st, node)
+                self.bind(tgt.elts[1], v[1], st, node)
+                return
             if not isinstance(v, tuple) or len(v) != len(tgt.elts):
                 raise Unsupported("unpacking shape mismatch", node)
             for t, x in zip(tgt.elts, v):
@@ -1204,8 +1255,10 @@ class Engine:
         rj = z3.Select(ty.arr(r.t), j)
         if cond is None:
             st.assume(ty.len(r.t) == z3.If(n > 0, n, 0))
-            st.assume(z3.ForAll([j], z3.Implies(z3.And(0 <= j, j < n), rj == z3.substitute(e.t, (ic, j))),
-                                patterns=[rj]))
+            body = z3.substitute(e.t, (ic, j))
+            # also instantiate from the source side: a ground xs[t] creates comp[t] (two-way link between the lists)
+            src = [x for x in _select_subterms(body, j) if not _has_ite(x)][:1]
+            st.assume(z3.ForAll([j], z3.Implies(z3.And(0 <= j, j < n), rj == body), patterns=[rj, *src]))
         else:
             # filter: C[j] = cond(j); position of element j in the result is cnt(C, j)
             cs = z3.simplify(cond)
@@ -1330,6 +1383,16 @@ class Engine:
     def method_call(self, node: ast.Call, st: State, hint=None) -> Val:
         f: ast.Attribute = node.func
         name = f.attr
+        if isinstance(f.value, ast.Name) and f.value.id == "itertools" and name == "repeat" and "itertools" not in st.env:
+            kw0 = {k.arg: k.value for k in node.keywords}
+            arg = node.args[0] if node.args else kw0.get("object")
+            if arg is None or len(node.args) > 1 or "times" in kw0:
+                raise Unsupported("itertools.repeat form", node)
+            x = self.eval(arg, st)
+            ty_ = TSeq(x.ty)  # an endless iterable: the constant array; its length is never used (it never bounds a zip)
+            r = Val(ty_, ty_.mk(z3.Int(fresh_name("inf")), z3.K(z3.IntSort(), x.t)), False)
+            r.inf = True
+            return r
         if isinstance(f.value, ast.Name) and f.value.id not in st.env and f"{f.value.id}.{name}" in self.registry:
             c = self.registry[f"{f.value.id}.{name}"]  # call through the class: Resources._convert_to_gb(x)
             if not c.static:
@@ -1678,6 +1741,20 @@ def _has_quantifier(t) -> bool:
         stack.extend(x.children())
     _QCACHE[k] = res
     return res
+
+
+def _select_subterms(t, j):
+    """Subterms select(A, j) of t with A not mentioning j."""
+    out, seen, todo = [], set(), [t]
+    while todo:
+        x = todo.pop()
+        if x.get_id() in seen or not z3.is_app(x):
+            continue
+        seen.add(x.get_id())
+        if z3.is_select(x) and x.arg(1).eq(j) and not _mentions(x.arg(0), j):
+            out.append(x)
+        todo.extend(x.children())
+    return out
 
 
 def _mentions(t, c) -> bool:
